@@ -744,6 +744,10 @@ try
     for (auto const &arg: args)
       iterations *= arg.size ();
 
+    // An argument that yields no value leaves nothing to iterate over.
+    if (iterations == 0)
+      return 1;
+
     if (iterations > 1)
       with_header = true;
     if (no_header)
